@@ -10,6 +10,9 @@ A *scenario* is a list of items executed in order after a restore:
                                        | {"mid": t} (die inside the body of task t after its first product write)
     ["memo", cls]          replace .pytask/file_hashes.json by a prefix / garbage class derived from the memo file that
                            the complete reference run wrote (classes in MEMO_CLASSES)
+    ["dbfile", cls]        file-level state of the database a kill during start-up (or a user) can leave (DBFILE_CLASSES):
+                           delete_pytask (no .pytask at all), zero (0-byte pytask.sqlite3), drop_runtime / drop_state
+                           (the file exists but lacks one table)
 Every build runs in a fresh forked child of a build server with the observer plugin on PYTHONPATH.
 
 The oracle (`judge`) only looks at implementation observations; `replay_model` replays the same scenario in the Lean
@@ -28,6 +31,7 @@ from impl import builder, engine, project
 
 PLUGIN_DIR = Path(__file__).resolve().parent.parent / "plugin"
 MEMO_CLASSES = ["empty", "cutkey", "cutvalue", "cuttail", "nonutf8", "wrongshape"]
+DBFILE_CLASSES = ["delete_pytask", "zero", "drop_runtime", "drop_state"]
 
 
 def plugin_env() -> dict:
@@ -52,6 +56,29 @@ def restore(root: Path, backup: Path):
         else:
             p.unlink()
     shutil.copytree(backup, root, dirs_exist_ok=True)
+
+
+def db_path(root: Path) -> Path:
+    return root / ".pytask" / "pytask.sqlite3"
+
+
+def dbfile_variant(root: Path, cls: str) -> None:
+    import sqlite3
+    if cls == "delete_pytask":
+        shutil.rmtree(root / ".pytask", ignore_errors=True)
+    elif cls == "zero":
+        (root / ".pytask").mkdir(exist_ok=True)
+        db_path(root).write_bytes(b"")
+    elif cls in ("drop_runtime", "drop_state"):
+        (root / ".pytask").mkdir(exist_ok=True)
+        con = sqlite3.connect(db_path(root))
+        try:
+            con.execute(f"DROP TABLE IF EXISTS {cls.split('_')[1]}")
+            con.commit()
+        finally:
+            con.close()
+    else:
+        raise ValueError(cls)
 
 
 def memo_path(root: Path) -> Path:
@@ -206,6 +233,9 @@ class Unit:
                 data = memo_variant(self.ref_memo, item[1], rng)
                 mp.write_bytes(data)
                 recs.append({"step": ["memo", item[1]], "bytes": len(data)})
+            elif item[0] == "dbfile":
+                dbfile_variant(self.root, item[1])
+                recs.append({"step": ["dbfile", item[1]]})
             else:
                 raise ValueError(item[0])
         return recs
@@ -348,6 +378,11 @@ def model_prepare(drv, case, pre_records):
 def _replay_once(drv, recs, choice, cands_out):
     drv.ask("crash.restore")
     for i, r in enumerate(recs):
+        if r["step"][0] == "dbfile":
+            # no database / an empty one / one without the state table = no rows; a missing runtime table is invisible to the engine
+            if r["step"][1] in ("delete_pytask", "zero", "drop_state"):
+                drv.ask("engine.cleardb")
+            continue
         if r["step"][0] != "build":
             continue   # the memo file does not exist in the model: a memo that loads as empty or coherent changes nothing
         if r["died"]:
